@@ -2,11 +2,14 @@
    parent with its PodCache, gets its max and min, and then its own and its children's figures
    are propagated again. *)
 From Coq Require Import List ZArith Bool Lia.
-From Verif Require Import Lib.Vec2 C01.Model C01.Spec C01.Proofs_Base C01.Proofs_Walk C01.Proofs_Delta
+From Verif Require Import Lib.VecN C01.Model C01.Spec C01.Proofs_Base C01.Proofs_Walk C01.Proofs_Delta
   C01.Proofs_PodList C01.Proofs_Sections C01.Proofs_Shape C01.Proofs_CWalk C01.Proofs_Detach
   C01.Proofs_SetMaxMin C01.Proofs_Mid C01.Proofs_Reset C01.Proofs_Quota.
 Import ListNotations.
 Open Scope Z_scope.
+
+Section WithDim.
+Context {D : Dim}.
 
 Lemma cnt_all_remove sh P n q x : NoDup (names sh) -> find sh n = Some q ->
   (cnt x (all_ids (remove_sh sh n) P) + cnt x (ids (P n)) = cnt x (all_ids sh P))%nat.
@@ -133,10 +136,10 @@ Section Reparent.
       + exact Hshape2.
       + intros x Hx. destruct (Hsplit x Hx) as [Hx1| ->].
         * rewrite (HR2o x Hx1). apply R1. exact Hx1.
-        * change (q_name b) with n. rewrite HR2n. reflexivity.
+        * change (q_name b) with n. rewrite HR2n. apply nonneg_r0.
       + intros x Hx. destruct (Hsplit x Hx) as [Hx1| ->].
         * rewrite (HU2o x Hx1). apply U1. exact Hx1.
-        * change (q_name b) with n. rewrite HU2n. reflexivity.
+        * change (q_name b) with n. rewrite HU2n. apply nonneg_u0.
       + intros x Hx Hne. destruct (Hsplit x Hx) as [Hx1| ->]; [|exfalso; apply Hne; reflexivity].
         destruct (Hold x Hx1) as (O1 & O2 & O3 & _ & _).
         rewrite Es2. cbn [st_r st_sh].
@@ -422,7 +425,7 @@ Proof.
   { intros Ei. destruct (leaf_figures s old HI Holdin) as (L1 & L2 & L3 & L4).
     - rewrite Holdn. intros c Hc. pose proof (not_parent_no_children _ old Hshape Holdin Ei c Hc) as H. rewrite Holdn in H. exact H.
     - rewrite Holdn in L1, L2, L3, L4. fold ro in L1, L2. fold uo in L3, L4.
-      unfold nz2, dc, dcnp, du, dunp. rewrite L1, L2, L3, L4, !vsub_diag. split; reflexivity. }
+      unfold nz2, dc, dcnp, du, dunp. rewrite L1, L2, L3, L4, !vsub_diag, viszero_zero. split; reflexivity. }
   assert (Emodel : parent_change s sp = s8).
   { unfold parent_change. fold n. rewrite Hf. fold ro uo s2 s3 s4.
     change (if negb (viszero (r_sreq ro)) || negb (viszero (r_snp ro)) then delta_req s4 n (r_sreq ro) (r_snp ro) true else s4) with s5.
@@ -461,3 +464,5 @@ Proof.
     rewrite Esh2 in Hx. apply in_app_or in Hx. destruct Hx as [Hx|[<-|[]]]; [|left; reflexivity].
     right. apply in_remove in Hx. tauto.
 Qed.
+
+End WithDim.
